@@ -54,6 +54,10 @@ elif kind == "second-line-theorem":
     status("GaveUp"); status("Theorem")
 elif kind == "crash":
     out.write(b"% about to crash\n"); out.flush(); os.kill(os.getpid(), 9)
+elif kind == "status-on-stderr":
+    out.write(b"% Refutation not found\n"); sys.stderr.write("% SZS status Theorem for problem\n"); sys.stderr.flush()
+elif kind == "late-countersat":
+    status("CounterSatisfiable")
 out.flush()
 sys.exit(rc)
 '''
@@ -61,7 +65,7 @@ sys.exit(rc)
 # outcome kind -> does the run count as "printed SZS status Theorem" (first status line)
 PROVEN = {"Theorem": True, "theorem-then-nonzero": True}
 KINDS = ["Theorem", "CounterSatisfiable", "ContradictoryAxioms", "Timeout", "MemoryOut", "GaveUp", "Error", "unknown-word",
-         "no-status", "non-utf8", "theorem-then-nonzero", "second-line-theorem", "crash"]
+         "no-status", "non-utf8", "theorem-then-nonzero", "second-line-theorem", "crash", "status-on-stderr"]
 
 PROGRAM_PAIRS = [
     ("p(X) :- q(X).\nq(1..3).\nr :- not s.\n", "p(X) :- q(X), X = X.\nq(1). q(2). q(3).\nr :- not s, not not r.\n"),
@@ -110,6 +114,12 @@ def prover_exploration(runs, seed):
                 plan[rng.randrange(4)] = [rng.choice(KINDS), rng.random() * 0.05]
             else:
                 plan = [[rng.choice(KINDS), rng.random() * 0.05] for _ in range(nplan)]
+            # every seventh run: a time limit of one second and one answer (CounterSatisfiable) that arrives well after twice the
+            # limit - the stand-in ignores the limit, and a late result is still a result
+            late = (k % 7 == 3) and not missing
+            if late:
+                plan = [["Theorem", 0.0] for _ in range(nplan)]
+                plan[rng.randrange(2)] = ["late-countersat", 2.6]
             (fdir / "plan.json").write_text(__import__("json").dumps(plan))
             save = shared_save if reuse else work / "problems"
             save.mkdir(exist_ok=True)
@@ -118,8 +128,10 @@ def prover_exploration(runs, seed):
             decomposition = "sequential" if reuse else rng.choice(["independent", "sequential"])
             direction = rng.choice(["universal", "universal", "forward", "backward"])
             env = dict(os.environ, PATH=str(bindir) + ":/usr/bin:/bin", FAKE_VAMPIRE_DIR=str(fdir), RUST_BACKTRACE="0")
+            if late:
+                instances = rng.choice([2, 3, 4])
             cmd = [str(ANTHEM), "verify", "--equivalence", "strong", "--decomposition", decomposition, "--direction", direction, "--no-timing",
-                   "-n", str(instances), "--save-problems", str(save), str(work / "left.lp"), str(work / "right.lp")]
+                   "-n", str(instances), "--save-problems", str(save)] + (["-t", "1"] if late else []) + [str(work / "left.lp"), str(work / "right.lp")]
             p = subprocess.run(cmd, stdout=subprocess.PIPE, stderr=subprocess.PIPE, env=env, timeout=300)
             out = p.stdout.decode("utf-8", "replace")
             # the files written by this run (a re-used directory may hold older ones)
@@ -127,7 +139,7 @@ def prover_exploration(runs, seed):
             nprob = len(saved)
             stdins = sorted(fdir.glob("stdin_*"))
             case = {"run": k, "instances": instances, "decomposition": decomposition, "direction": direction, "programs": [left, right],
-                    "reused_save_directory": reuse, "plan": plan[:nprob], "missing_executable": missing}
+                    "reused_save_directory": reuse, "plan": plan[:nprob], "missing_executable": missing, "time_limit_1s_with_late_answer": late}
             if p.returncode != 0 and "panicked at" in p.stderr.decode("utf-8", "replace"):
                 failures.append(dict(case, what="verify panicked", stderr=p.stderr.decode("utf-8", "replace")[-600:]))
                 continue
@@ -251,6 +263,11 @@ def classify_known(text, stderr):
         cls.append("numeral-overflow")
     if _re.search(r"V0*1844674407370955\d{4}", text) and "attempt to add with overflow" in stderr:
         cls.append("global-index-overflow")
+    # an output predicate declared with an arity that no formula can have (>= a million arguments): its empty definition
+    # (fix 82641ae) cannot be built
+    if _re.search(r"output\s*:\s*[A-Za-z_][A-Za-z0-9_]*\s*/\s*\d{7,}", text) and \
+            ("capacity overflow" in stderr or "memory allocation of" in stderr or stderr == ""):
+        cls.append("absurd-output-arity")
     return cls
 
 
@@ -396,7 +413,8 @@ def crash_exploration(runs, seed):
                     for c in cls:
                         known_seen[c] = known_seen.get(c, 0) + 1
                 else:
-                    failures.append({"command": cmd[:6], "input": text[:3000], "outcome": o, "stderr": err[-800:]})
+                    failures.append({"command": cmd[:6], "input": text[:3000], "outcome": o, "stderr": err[-800:],
+                                     "all_files": {x.name: x.read_text(errors="replace")[:2000] for x in work.glob("*.*") if x.is_file()} if cmd[0] == "verify" else {}})
     finally:
         shutil.rmtree(work, ignore_errors=True)
     return {"evaluations": runs + edge_runs, "edge_matrix_runs": edge_runs, "distinct_nontrivial": outcomes["ok"] + outcomes["error"], "samples": samples, "outcomes": outcomes,
